@@ -5,9 +5,8 @@ From Coq Require Import List Arith ZArith Bool Lia.
 Import ListNotations.
 From GG Require Import Exec ExecSpec ExecSpec_proofs.
 
-(* state after the first-visit block of resolveField (ConType recorded) *)
-Definition visited (s : st) (id t : nat) : st :=
-  match lookup id (s_args s) with Some _ => s | None => mkSt ((id, t) :: s_args s) (s_calls s) end.
+(* state after the argument block of resolveField: ConType = t recorded, Field.Args sorted under t *)
+Definition visited (s : st) (id t : nat) : st := mkSt ((id, t) :: s_args s) (s_calls s).
 
 (* when the container has no such field, sortArgs has nothing to complain about *)
 Lemma sort_args_no_field S t name args :
@@ -19,43 +18,36 @@ Proof.
 Qed.
 
 (* An undefined field: one error naming the selection (its key as path, its position as location),
-   no response entry, no resolver invoked.  (If the same Field was first visited under another type
-   that does define the field, the arguments that type does not declare are a second defect and are
-   reported instead: excluded by the hypothesis on the state.) *)
-Definition no_earlier_arg_errors (S : schema) (s : st) (id name : nat) (args : list arg) : Prop :=
-  match lookup id (s_args s) with Some t0 => snd (sort_args S t0 name args) = [] | None => True end.
-
+   no response entry, no resolver invoked - whatever was resolved before on the same parsed
+   document (any state s), for every container type t. *)
 Theorem C10_unknown_field :
   forall S G frags any md vars fuel obj id alias name args fsels t result depth s,
     Nat.eqb name TYPENAME = false ->
     get_field_def S t name = None ->
-    no_earlier_arg_errors S s id name args ->
     resolve_field S G frags any md vars (Datatypes.S fuel) obj id alias name args fsels t result depth s =
     Done (result, [mkErr [PKey (key_of alias name)] (LNode id) ENotField], visited s id t).
 Proof.
-  intros S G frags any md vars fuel obj id alias name args fsels t result depth s Hn Hg Hs.
-  rewrite resolve_field_eq. cbv zeta. unfold visited, no_earlier_arg_errors in *.
-  destruct (lookup id (s_args s)) as [t0|].
-  - rewrite Hs, Hn, Hg. reflexivity.
-  - pose proof (sort_args_no_field S t name args Hg) as Ht.
-    destruct (sort_args S t name args) as [a e]. simpl in Ht. subst e.
-    rewrite Hn, Hg. reflexivity.
+  intros S G frags any md vars fuel obj id alias name args fsels t result depth s Hn Hg.
+  rewrite resolve_field_eq. cbv zeta. unfold visited.
+  pose proof (sort_args_no_field S t name args Hg) as Ht.
+  destruct (sort_args S t name args) as [a e]. simpl in Ht. subst e.
+  rewrite Hn, Hg. reflexivity.
 Qed.
 Print Assumptions C10_unknown_field.
 
-(* An undeclared argument under an object container: at the first visit AND at every later visit of
-   that Field (same or later resolve of the parsed document) the selection yields errors, no entry,
-   and no resolver is invoked. *)
+(* An undeclared argument under an object container t: on every visit of that Field - the first or a
+   later one, after visits under the same or under OTHER container types, in the same or a later
+   resolve of the parsed document (any state s) - the selection yields an error for the argument, no
+   entry, and no resolver is invoked (the call log of the state is unchanged). *)
 Theorem C10_undeclared_argument :
   forall S G frags any md vars fuel obj id alias name args fsels t fs ifaces fd a v result depth s,
     lookup t S = Some (DObject fs ifaces) -> find_field name fs = Some fd ->
     In (a, v) args -> find_arg a (f_args fd) = None ->
-    (lookup id (s_args s) = None \/ lookup id (s_args s) = Some t) ->
     exists e ea, resolve_field S G frags any md vars (Datatypes.S fuel) obj id alias name args fsels t result depth s =
                  Done (result, errs_in (PKey (key_of alias name)) (e :: ea), visited s id t) /\
                  e_kind e = EBadArg.
 Proof.
-  intros S G frags any md vars fuel obj id alias name args fsels t fs ifaces fd a v result depth s Ht Hf Hin Hna Hst.
+  intros S G frags any md vars fuel obj id alias name args fsels t fs ifaces fd a v result depth s Ht Hf Hin Hna.
   assert (Hne : exists e ea, snd (sort_args S t name args) = e :: ea /\ e_kind e = EBadArg).
   { unfold sort_args. destruct args as [|a0 args0]; [inversion Hin|]. rewrite Ht, Hf. cbn [snd].
     set (flt := filter _ _).
@@ -63,9 +55,7 @@ Proof.
     destruct flt as [|x r]; [inversion Hi|]. simpl. eauto. }
   destruct Hne as [e [ea [He Hk]]]. exists e, ea. split; auto.
   rewrite resolve_field_eq. cbv zeta. unfold visited.
-  destruct Hst as [Hst|Hst]; rewrite Hst.
-  - destruct (sort_args S t name args) as [sa se]. simpl in He. subst se. reflexivity.
-  - rewrite He. reflexivity.
+  destruct (sort_args S t name args) as [sa se]. simpl in He. subst se. reflexivity.
 Qed.
 Print Assumptions C10_undeclared_argument.
 
@@ -86,22 +76,55 @@ Qed.
 Print Assumptions C10_missing_required_reported.
 
 (* ... and whenever formArgs reports anything the resolver is not invoked: the entry is null and the
-   call log is unchanged *)
+   call log is unchanged; the errors are those of formArgs, placed at the selection *)
 Theorem C10_argument_errors_no_call :
   forall S G frags any md vars fuel obj id alias name args fsels t fd result depth s cur cargs e ea n,
     Nat.eqb name TYPENAME = false ->
     get_field_def S t name = Some fd ->
-    lookup id (s_args s) = Some t -> sort_args S t name args = (cur, []) ->
+    sort_args S t name args = (cur, []) ->
     strategy_of any obj = Some n ->
     form_args S vars id fd cur = (cargs, e :: ea) ->
-    exists errs, resolve_field S G frags any md vars (Datatypes.S fuel) obj id alias name args fsels t result depth s =
-                 Done (set_key (key_of alias name) RNull result, errs, s).
+    resolve_field S G frags any md vars (Datatypes.S fuel) obj id alias name args fsels t result depth s =
+    Done (set_key (key_of alias name) RNull result,
+          (if Nat.ltb depth md then errs_in (PKey (key_of alias name)) ((e :: ea) ++ []) else (e :: ea) ++ []),
+          visited s id t).
 Proof.
-  intros S G frags any md vars fuel obj id alias name args fsels t fd result depth s cur cargs e ea n Hn Hg Hst Hso Hstr Hfa.
-  rewrite resolve_field_eq. cbv zeta. rewrite Hst, Hso. cbn [fst snd]. rewrite Hn, Hg, Hstr, Hfa.
-  simpl is_nil. cbv iota. eauto.
+  intros S G frags any md vars fuel obj id alias name args fsels t fd result depth s cur cargs e ea n Hn Hg Hso Hstr Hfa.
+  rewrite resolve_field_eq. cbv zeta. rewrite Hso. rewrite Hn, Hg, Hstr, Hfa.
+  simpl is_nil. cbv iota. reflexivity.
 Qed.
 Print Assumptions C10_argument_errors_no_call.
+
+(* The two together: a selection that omits a required argument of the field as the container type
+   t declares it - t being whatever object type the selection is evaluated in, on any visit - gets an
+   error of the missing-argument kind at the selection, a null entry, and the resolver is not
+   invoked. *)
+Theorem C10_missing_required_no_call :
+  forall S G frags any md vars fuel obj id alias name args fsels t fd result depth s cur n d,
+    Nat.eqb name TYPENAME = false ->
+    get_field_def S t name = Some fd ->
+    sort_args S t name args = (cur, []) ->
+    strategy_of any obj = Some n ->
+    In d (f_args fd) -> is_nonnull (a_type d) = true ->
+    (forall v, ~ In (a_name d, v) (somes cur)) ->
+    exists errs x,
+      resolve_field S G frags any md vars (Datatypes.S fuel) obj id alias name args fsels t result depth s =
+      Done (set_key (key_of alias name) RNull result, errs, visited s id t) /\
+      In x errs /\ e_kind x = EMissingArg /\ e_loc x = LNode id.
+Proof.
+  intros S G frags any md vars fuel obj id alias name args fsels t fd result depth s cur n d Hn Hg Hso Hstr Hd Hnn Hno.
+  pose proof (C10_missing_required_reported S vars id fd cur d Hd Hnn Hno) as Hin.
+  destruct (form_args S vars id fd cur) as [cargs ea] eqn:Hfa. cbn [snd] in Hin.
+  destruct ea as [|e ea]; [inversion Hin|].
+  rewrite (C10_argument_errors_no_call S G frags any md vars fuel obj id alias name args fsels t fd result depth s cur cargs e ea n Hn Hg Hso Hstr Hfa).
+  rewrite app_nil_r.
+  destruct (Nat.ltb depth md).
+  - eexists. exists (mkErr (PKey (key_of alias name) :: []) (LNode id) EMissingArg). split; [reflexivity|].
+    split; [|split; reflexivity].
+    unfold errs_in. apply in_map_iff. exists (mkErr [] (LNode id) EMissingArg). split; [reflexivity|exact Hin].
+  - eexists. exists (mkErr [] (LNode id) EMissingArg). split; [reflexivity|]. split; [exact Hin|split; reflexivity].
+Qed.
+Print Assumptions C10_missing_required_no_call.
 
 (* Valid siblings are still resolved: after an undefined field the rest of the selection set is
    evaluated on the same result map and call log as if the defective selection were absent. *)
@@ -109,7 +132,6 @@ Theorem C10_siblings_after_unknown_field :
   forall S G frags any md vars fuel obj id alias name args dirs fsels r t result depth s,
     skip_sel vars (SField id alias name args dirs fsels) = (false, []) ->
     Nat.eqb name TYPENAME = false -> get_field_def S t name = None ->
-    no_earlier_arg_errors S s id name args ->
     match resolve_sels_loop S G frags any md vars (Datatypes.S (Datatypes.S fuel)) obj (SField id alias name args dirs fsels :: r) t result depth s,
           resolve_sels_loop S G frags any md vars (Datatypes.S fuel) obj r t result depth (visited s id t) with
     | Done (m, ea, s1), Done (m', ea', s1') =>
@@ -118,7 +140,7 @@ Theorem C10_siblings_after_unknown_field :
     | _, _ => False
     end.
 Proof.
-  intros S G frags any md vars fuel obj id alias name args dirs fsels r t result depth s Hsk Hn Hg Hs.
+  intros S G frags any md vars fuel obj id alias name args dirs fsels r t result depth s Hsk Hn Hg.
   rewrite (resolve_sels_loop_eq S G frags any md vars (Datatypes.S fuel)). rewrite Hsk.
   rewrite C10_unknown_field; auto.
   destruct (resolve_sels_loop S G frags any md vars (Datatypes.S fuel) obj r t result depth (visited s id t)) as [[[m ea] s1]|]; auto.
